@@ -792,3 +792,10 @@ Proof.
   - apply onnx_shape_opt_variadic_last.
   - apply onnx_shape_opt_variadic_last.
 Qed.
+
+(* ------------------------------------------------------------------------------------------------ kind checks come first *)
+Lemma wrong_kind_raises :
+  forall (E : Type) (infer : smodel -> E + list (string * option oty)) c,
+    (args_ok (s_ins (c_sig c)) (c_ins c) = false -> construct infer c = RaisedOther) /\
+    (args_ok (s_ins (c_sig c)) (c_ins c) = true -> construct infer c = call_outcome infer c).
+Proof. intros E infer c. unfold construct. destruct (args_ok _ _); split; intros H; try reflexivity; discriminate H. Qed.
